@@ -570,6 +570,38 @@ def case_chart(name, nser, npts, part=None):
         out.append(("C20|chart-reopen-count|%s" % tag, "%d charts after re-open" % len(charts)))
     else:
         look(charts[0], "reopened", live)
+
+    # Formatting ONE data point does not make the chart another type: hide the marker of a point, give it a line
+    # width (point-level c:dPt content, public API only), then read the type again, live and after re-open.
+    edited = False
+    try:
+        from pptx.enum.chart import XL_MARKER_STYLE
+        from pptx.util import Pt
+        for plot in gf.chart.plots:
+            for ser in list(plot.series)[:1]:
+                pts = ser.points
+                if len(pts):
+                    pt = pts[len(pts) - 1]
+                    pt.marker.style = XL_MARKER_STYLE.NONE
+                    pt.format.line.width = Pt(1)
+                    edited = True
+    except Exception as e:  # noqa: BLE001   (what point formatting accepts is C09's business)
+        if part is not None:
+            part.outcome("chart_type.point-edit", "raised:%s" % type(e).__name__)
+        edited = False
+    if edited:
+        if part is not None:
+            part.outcome("chart_type.point-edit", "applied")
+        seen0 = set(live)
+        n0 = len(out)
+        after = look(gf.chart, "after formatting one point", seen0)
+        buf = io.BytesIO()
+        prs.save(buf)
+        prs3 = Presentation(io.BytesIO(buf.getvalue()))
+        charts = [s.chart for s in prs3.slides[0].shapes if getattr(s, "has_chart", False)]
+        if len(charts) == 1:
+            look(charts[0], "after formatting one point, re-opened", seen0 | after)
+        out[n0:] = [(sig.replace("|after-reopen", "") + "|after-point-format", what) for sig, what in out[n0:]]
     return "ok", out
 
 
